@@ -49,6 +49,18 @@ class QG:
     def query(self, depth, scope, facts):
         rng = self.rng
         r = rng.random()
+        arrs = [(k, v) for f in facts for k, v in f.items() if isinstance(v, list) and v]
+        if depth > 0 and arrs and rng.random() < 0.06:
+            # directed: a value computed by a code term (numbers arrive from otto as Go integers, not float64) used by the next
+            # pattern as an array element / map value / top-level value; under `and`, optionally negated
+            k, v = rng.choice(arrs)
+            val = rng.choice(v) if rng.random() < 0.8 else rng.choice([1, 2, 3, "x"])
+            name = rng.choice(["n", "m"])
+            t = {"t": "lit", "v": {name: val}}
+            shape = rng.random()
+            pat = {"pattern": {k: ["?" + name]} if shape < 0.6 else ({k: ["?" + name, rng.choice(v)]} if shape < 0.8 else {k: "?" + name})}
+            scope.add("?" + name)
+            return {"and": [{"code": js_of_tmpl(t), "verif_tmpl": t}, pat if rng.random() < 0.75 else {"not": pat}]}
         if depth <= 0 or r < 0.35:
             return self.pattern(scope, facts)
         if r < 0.50:
@@ -138,4 +150,5 @@ def main():
     proof_verdict(ck, pr)
     ck.finish()
 
-main()
+if __name__ == "__main__":
+    main()
